@@ -4,3 +4,16 @@ CLAIMS["C12"] = ("proof",
   "Every obligation generated from the contracts of the AES-GCM send path (nonce = base IV with word0 + counter mod 2^32, IV sent iff counter 0, AAD layout, counter steps by one and refuses at 2^32-1, digests frozen) is discharged by an SMT solver for all inputs; the nonce-injectivity lemma closes 'no reuse'.",
   PROOF_NOTE + " An independent AES-GCM implementation opening the frames is not part of the proof (AEAD is uninterpreted).",
   "deductive verification: WP over go/ssa + SMT (z3/cvc5)", "DESIGN.md 4 (C12)")
+
+CLAIMS["C01"] = ("proof",
+  "Stream layer: every frame the sender emits is header(end,len)||payload with the exact length, a send that succeeds stays within the limit the receiver enforces (sender-accepted => receiver-accepted, sealing overhead included), the receiver rejects a well-read header only when it is out of limits, and a plaintext frame is delivered byte-identical; message-layer chunking obligations are added as they are brought under contract.",
+  PROOF_NOTE + " The reliable-channel step of the round-trip (what the peer wrote is what this side reads) is an assumption, not an obligation.",
+  "deductive verification: WP over go/ssa + SMT (z3/cvc5)", "DESIGN.md 4 (C01)")
+CLAIMS["C02"] = ("proof",
+  "On a keyed, encrypting stream every frame the receive functions accept went through a successful gcm.Open in that call, with the position nonce (base IV, word0 + counter), an AAD that contains the 5 header bytes just read (end flag and length authenticated), counters step only on success and errors return no data; proved for all inputs with the peer's bytes unconstrained.",
+  PROOF_NOTE + " AES-GCM itself is an ideal AEAD by assumption; the in-order-prefix conclusion is a lemma over these contracts.",
+  "deductive verification: WP over go/ssa + SMT (z3/cvc5)", "DESIGN.md 4 (C02)")
+CLAIMS["C04"] = ("proof",
+  "Every cleartext send and receive path (zero-length frames included) feeds the frame header and payload to the handshake digest exactly once while the digest is not frozen; digests are frozen once; the first sealed/opened frame's AAD is finalSend||finalRecv||header (mirrored on receipt).",
+  PROOF_NOTE + " SHA-256 collision resistance and the AEAD are assumed; the digest is modelled by its update count, not byte-wise.",
+  "deductive verification: WP over go/ssa + SMT (z3/cvc5)", "DESIGN.md 4 (C04)")
